@@ -287,9 +287,11 @@ def _rng(nsh, L, e0max=None):
             shapes={'quick': [{'n_nodes': 1, 'cpn': 4, 'L': 3, 'nsh': 5,
                                '_ranges': _rng(5, 3, e0max=5)}],
                     'thorough': [{'n_nodes': 1, 'cpn': 4, 'L': 3, 'nsh': 10,
-                                  '_ranges': _rng(10, 3)},
-                                 {'n_nodes': 1, 'cpn': 4, 'L': 4, 'nsh': 4,
-                                  '_ranges': _rng(4, 4)},
+                                  '_ranges': dict(_rng(10, 3), st=(0, 0))},
+                                 {'n_nodes': 1, 'cpn': 4, 'L': 3, 'nsh': 6,
+                                  '_ranges': dict(_rng(6, 3), st=(1, 2))},
+                                 {'n_nodes': 1, 'cpn': 4, 'L': 4, 'nsh': 3,
+                                  '_ranges': dict(_rng(3, 4), st=(0, 0))},
                                  {'n_nodes': 2, 'cpn': 2, 'L': 3, 'nsh': 5,
                                   '_ranges': _rng(5, 3)}]},
             partition={'quick': ('e1', 16), 'thorough': ('e1', 22)},
@@ -303,7 +305,10 @@ def _rng(nsh, L, e0max=None):
                    'running task, cancel request for task 0 / 1 / both}; the loop runs '
                    'to rest after every event, or not between events 0 and 1, '
                    'or not between events 1 and 2 (several arrivals in one '
-                   'intake); quick: first event is a priority-0 arrival',
+                   'intake); quick: first event is a priority-0 arrival; '
+                   'thorough: L=3 over all 10 shapes (loop at rest after every '
+                   'event), L=3 over 6 shapes with grouped intakes, L=4 over 3 '
+                   'shapes, 2 nodes x 2 cores over 5 shapes',
             stubs=['mp.Queue -> in-memory queues', 'advance -> recorder',
                    'time.sleep -> counter', '_log/_prof no-op'])
 def h_loop(e0, e1, e2, e3, st, n_nodes=1, cpn=4, L=3, nsh=NSH):
